@@ -96,6 +96,11 @@
                      version).
    isinstance(x, str)  str and Token: true; None, numbers, tuple, list,
                      iterators: false; rest OUnsup.
+   x.isspace()       x a str / Token (a str subclass whose str value is its
+                     text): non-empty and every code point in
+                     Tables.py_whitespace (dumped from this interpreter's
+                     str.isspace); None: AttributeError; rest OUnsup.
+   a if c else b     c first; then only the chosen operand.
    itertools.chain( *x )   x a tuple/list/un-advanced iterator of iterables; a
                      str contributes its characters (one-character strs), a
                      tuple/list its elements; result VSeq.
@@ -151,7 +156,7 @@ Inductive fname :=
 | F_read_tex.      (* TexSoup.reader.read_tex: interpreted by ReadDSL *)
 
 Inductive gx :=
-| GNone | GInt (z : Z) | GStr (s : str) | GCat (k : cc) | GEmptyTuple
+| GNone | GBool (b : bool) | GInt (z : Z) | GStr (s : str) | GCat (k : cc) | GEmptyTuple
 | GVar (x : var)
 | GPosition                       (* text.position *)
 | GHasNext (n : nat)              (* text.hasNext(n); hasNext() is hasNext(1) *)
@@ -166,6 +171,8 @@ Inductive gx :=
 | GNot (a : gx) | GAnd (a b : gx) | GOr (a b : gx)
 | GCatInTC (a : gx)               (* a.category in TC *)
 | GIsStr (a : gx)                 (* isinstance(a, str) *)
+| GIsSpace (a : gx)               (* a.isspace() *)
+| GIfExp (c a b : gx)             (* a if c else b *)
 | GChainStar (a : gx)             (* itertools.chain( *a ) *)
 | GJoin (sep a : gx)              (* sep.join(a) *)
 | GPair (a b : gx)                (* a, b *)
@@ -516,6 +523,7 @@ Definition of_bool (o : option bool) : eres :=
 Fixpoint eval (env : genv) (fr : frame) (e : gx) {struct e} : eres :=
   match e with
   | GNone => EV VNone
+  | GBool b => EV (VBool b)
   | GInt z => EV (VInt z)
   | GStr s => EV (VStr s)
   | GCat k => EV (VCat k)
@@ -577,6 +585,22 @@ Fixpoint eval (env : genv) (fr : frame) (e : gx) {struct e} : eres :=
       | _ => EU
       end)
   | GIsStr a => ebind (eval env fr a) (fun x => of_bool (is_str x))
+  | GIsSpace a =>
+    ebind (eval env fr a) (fun x =>
+      match x with
+      | VNone => EX XAttributeError
+      | _ => match text_of x with
+             | Some s => EV (VBool (nonempty s && forallb (fun c => mem_N c Tables.py_whitespace) s))
+             | None => EU
+             end
+      end)
+  | GIfExp c a b =>
+    ebind (eval env fr c) (fun x =>
+      match truthy x with
+      | Some true => eval env fr a
+      | Some false => eval env fr b
+      | None => EU
+      end)
   | GChainStar a =>
     ebind (eval env fr a) (fun x =>
       match items_of x with
@@ -635,7 +659,8 @@ Fixpoint used_vars (e : gx) : list var :=
   | GVar x => [x]
   | GIsNone (GVar _) | GIsNotNone (GVar _) | GIsStr (GVar _) => []
   | GReversed a | GEnumerate a _ | GIsNone a | GIsNotNone a | GNot a | GCatInTC a | GIsStr a
-  | GChainStar a => used_vars a
+  | GChainStar a | GIsSpace a => used_vars a
+  | GIfExp c a b => used_vars c ++ used_vars a ++ used_vars b
   | GEq a b | GNe a b | GIn a b | GAnd a b | GOr a b | GJoin a b | GPair a b | GNewTexNode a b =>
     used_vars a ++ used_vars b
   | GNewToken a b c => used_vars a ++ used_vars b ++ used_vars c
